@@ -81,6 +81,47 @@ Proof.
 Qed.
 Print Assumptions pool_reuse_partial_init_refuted.
 
+
+(* SEMANTIC isolation on a machine with values (registers private to the request, shared
+   memory): if nobody else writes what request t reads, then in EVERY reachable state of every
+   interleaving with any number of other requests, t's registers (decoded payload, response
+   under construction) are exactly those of t running alone from the initial memory for the
+   same number of its own steps. Other requests may write anything else, t may write anything. *)
+Theorem value_isolation (V : Type) (P : list (vthread V)) init m0 t :
+  t < length P -> length init = length P -> undisturbed V P t ->
+  forall s, vreach V P init m0 s ->
+  nth t (vrs V s) [] = fst (solo V (nth t P []) (nth t init []) m0 (nth t (vpc V s) 0)).
+Proof. exact (value_isolation_lemma V P init m0 t). Qed.
+Print Assumptions value_isolation.
+
+(* ... in terms of access skeletons: whatever the data semantics, a request whose skeleton is
+   a body of the pool that reads no location the pool may write is isolated. *)
+Theorem pool_value_isolation (V : Type) (B : list thread) (extra : list nat)
+  (P : list (vthread V)) init m0 t :
+  t < length P -> length init = length P ->
+  (forall t', t' < length P -> exists b, In b B /\ vaccs V (nth t' P []) = accs b) ->
+  (exists b, In b (isolated_bodies B (written_locs B ++ extra)) /\ vaccs V (nth t P []) = accs b) ->
+  forall s, vreach V P init m0 s ->
+  nth t (vrs V s) [] = fst (solo V (nth t P []) (nth t init []) m0 (nth t (vpc V s) 0)).
+Proof. exact (pool_value_isolation_lemma V B extra P init m0 t). Qed.
+Print Assumptions pool_value_isolation.
+
+(* The hypothesis is needed: a request that reads what another one writes (a "last value"
+   variable) ends with a value it never has alone. *)
+Theorem value_isolation_disturbed_refuted :
+  exists (P : list (vthread nat)) init m0 t s, t < length P /\ length init = length P /\
+    vreach nat P init m0 s /\
+    nth t (vrs nat s) [] <> fst (solo nat (nth t P []) (nth t init []) m0 (nth t (vpc nat s) 0)).
+Proof.
+  exists [[VRead nat 0 7]; [VWrite nat 7 (fun _ => 1)]], [[0]; [0]], (fun _ => 0), 0.
+  eexists. split; [simpl; lia|]. split; [reflexivity|]. split.
+  - eapply vr_step; [eapply vr_step; [apply vr_init|]|].
+    + apply (vs_step nat _ _ _ _ 1 (VWrite nat 7 (fun _ => 1))); [simpl; lia|reflexivity].
+    + apply (vs_step nat _ _ _ _ 0 (VRead nat 0 7)); [simpl; lia|reflexivity].
+  - vm_compute. discriminate.
+Qed.
+Print Assumptions value_isolation_disturbed_refuted.
+
 (* ---------- non-vacuity ---------- *)
 
 (* the shape of goa.ValidatePattern: read under RLock, write under Lock *)
@@ -153,3 +194,9 @@ Proof. repeat split. Qed.
 Example classified_memo_isolated :
   isolatedb [cache_req] [] [(1, WMemo)] = true /\ isolatedb [cache_req] [3] [(1, WMemo)] = false.
 Proof. split; reflexivity. Qed.
+
+(* of three bodies, the one that reads what another writes is not among the isolated ones *)
+Example read_only_sharing_isolated :
+  let B := [[Acc 3 false; Acc 4 false]; [Acc 9 true]; [Acc 4 false; Acc 9 false]] in
+  isolated_bodies B (written_locs B ++ []) = [[Acc 3 false; Acc 4 false]; [Acc 9 true]].
+Proof. reflexivity. Qed.
